@@ -14,7 +14,7 @@ while read -r patch prop expect; do
   (cd /repo && git archive HEAD) | tar -x -C "$SCR/repo"
   (cd "$HERE/contracts" && find . -name 'vc_*_verif.go' | while read f; do cp $f "$SCR/repo/$f"; done)
   if ! (cd "$SCR/repo" && patch -p1 -s < "$HERE/selftest/mutants/$patch"); then echo "SELFTEST $patch: patch does not apply"; fail=1; continue; fi
-  out=$(./bin/govc -repo "$SCR/repo" -mirror "$HERE/contracts" -prop "$prop" -tier quick -out "$SCR/work" -known /dev/null -replaydir "$SCR/replay" -noreplay 2>&1)
+  out=$(./bin/govc -repo "$SCR/repo" -mirror "$HERE/contracts" -prop "$prop" -tier quick -timeout ${SELFTEST_TIMEOUT:-40} -out "$SCR/work" -known /dev/null -replaydir "$SCR/replay" -noreplay 2>&1)
   if [ -d "bounded/$prop" ]; then
     out="$out
 $(VC_REPO="$SCR/repo" ./bounded.sh "$prop" quick /dev/null 2>&1 | sed 's/^BOUNDED-FAIL/obligation bounded:/')"
